@@ -69,6 +69,7 @@ type ProofSpec struct {
 	RawSig   string `json:"raw_sig,omitempty"`   // hex: use these bytes as the signature
 	NoSig    bool   `json:"no_sig,omitempty"`    // empty signature
 	SeqOfDID string `json:"seq_of_did,omitempty"` // take "cur" from this DID instead of the message's
+	ContentDoc *DocSpec `json:"content_doc,omitempty"` // the proof is made over THIS document (a genuine proof of another document of the same DID, transplanted)
 }
 
 type CoinSpec struct {
@@ -203,6 +204,8 @@ func (bc *BuildCtx) proof(p *ProofSpec, did string, content *didtypes.DIDDocumen
 	}
 	c := content
 	switch {
+	case p.ContentDoc != nil:
+		c = bc.Env.BuildDoc(p.ContentDoc)
 	case p.Content == "other":
 		c = &didtypes.DIDDocument{Id: did + "x"}
 	case len(p.Content) > 4 && p.Content[:4] == "did:":
